@@ -311,13 +311,15 @@ func (s *suspState[T]) cuts() []int {
 }
 
 type nodeRec[T any] struct {
-	fresh *T
-	fn    int
-	fe    sipsp.ErrorHdr
-	fkey  []byte
-	fobs  string // lazily computed
-	fokey []byte
-	susp  []*suspState[T]
+	fresh    *T
+	fn       int
+	fe       sipsp.ErrorHdr
+	fkey     []byte
+	fobs     string // lazily computed
+	fokey    []byte
+	hasFokey bool
+	store    [][]byte
+	susp     []*suspState[T]
 	// definitive-since bookkeeping for pruning
 	defDepth int // number of consecutive ancestors (incl. this) with definitive Fresh
 }
@@ -330,7 +332,7 @@ type Oracles struct {
 	// ExemptObs filters observation lines that are exempt (C03 body extent without Content-Length).
 	ExemptObs func(line string) bool
 	// ExemptOffset: the returned offset is exempt too (same case).
-	ExemptCase func(obs string, flags uint) bool
+	ExemptCase func(o any, flags uint) bool
 }
 
 type Explorer[T any] struct {
@@ -346,11 +348,30 @@ type Explorer[T any] struct {
 	BeyondOk  int
 	// FinalFlags: extra flag sets tried as a *final* call at every node (e.g. no-more-data).
 	FinalFlags []uint
-	MaxSusp    int // cap on |Susp(w)| (0 = 64)
-	SplitDepth int // job granularity: 1 or 2 fragment levels
+	MaxSusp    int      // cap on |Susp(w)| (0 = 64)
+	Probes     [][]byte // C03: continuations appended below every node with a definitive verdict
+	SplitDepth int      // job granularity: 1 or 2 fragment levels
+}
+
+// getNode returns a recycled node record for stack position i with a pristine object in it
+// (deep copy of a never-used template: no allocation on the hot path).
+func (w *worker[T]) getNode(i int) *nodeRec[T] {
+	if w.tmpl == nil {
+		w.tmpl = w.e.Drv.New(&w.e.Cfg)
+	}
+	for len(w.pool) <= i {
+		w.pool = append(w.pool, &nodeRec[T]{fresh: new(T)})
+	}
+	nd := w.pool[i]
+	w.e.Drv.copyInto(nd.fresh, w.tmpl, &nd.store)
+	nd.fobs, nd.fokey, nd.susp, nd.defDepth = "", nd.fokey[:0], nd.susp[:0], 0
+	nd.hasFokey = false
+	return nd
 }
 
 type worker[T any] struct {
+	tmpl    *T
+	pool    []*nodeRec[T]
 	e       *Explorer[T]
 	st      *Stats
 	buf     []byte
@@ -359,6 +380,13 @@ type worker[T any] struct {
 	store   [][]byte
 	kbuf    []byte
 	okbuf   []byte
+	okbuf2  []byte
+	kbuf2   []byte
+	pbuf    []byte
+	ptmp    *T
+	ptmp2   *T
+	pstore  [][]byte
+	pstore2 [][]byte
 	count   bool
 	hasSusp bool
 	ffresh  []*T
@@ -399,23 +427,24 @@ func junkBytes(kind string, n int) []byte {
 	return b
 }
 
-func (e *Explorer[T]) run() {
+type trieJob struct {
+	path []Frag
+	own  int // index of first owned fragment in path
+}
+
+func (e *Explorer[T]) jobs() []trieJob {
 	e.Drv.init()
 	if e.MaxSusp == 0 {
 		e.MaxSusp = 64
 	}
 	root := e.Gen.Root()
 	top := e.Gen.Expand(root, 0)
-	type job struct {
-		path []Frag
-		own  int // index of first owned fragment in path
-	}
-	var jobs []job
+	var jobs []trieJob
 	if e.SplitDepth >= 2 {
 		for _, f := range top {
 			sub := e.Gen.Expand(f.Next, len(f.B))
 			if len(sub) == 0 {
-				jobs = append(jobs, job{[]Frag{f}, 0})
+				jobs = append(jobs, trieJob{[]Frag{f}, 0})
 				continue
 			}
 			for i, g := range sub {
@@ -423,49 +452,67 @@ func (e *Explorer[T]) run() {
 				if i == 0 {
 					own = 0
 				}
-				jobs = append(jobs, job{[]Frag{f, g}, own})
+				jobs = append(jobs, trieJob{[]Frag{f, g}, own})
 			}
 		}
 	} else {
 		for _, f := range top {
-			jobs = append(jobs, job{[]Frag{f}, 0})
+			jobs = append(jobs, trieJob{[]Frag{f}, 0})
 		}
 	}
-	nw := e.Run.Workers
-	if nw > len(jobs) {
-		nw = len(jobs)
+	return jobs
+}
+
+func (e *Explorer[T]) runOne(j trieJob, st *Stats) {
+	w := &worker[T]{e: e, st: st, scratch: new(T)}
+	w.buf = make([]byte, 0, e.Cfg.Offs+4096)
+	w.buf = append(w.buf, junkBytes(e.Cfg.Junk, e.Cfg.Offs)...)
+	w.runJob(j.path, j.own)
+}
+
+// exploreMany runs several explorers (typically one per configuration) on one shared worker pool.
+func exploreMany[T any](r *Run, es []*Explorer[T]) {
+	type item struct {
+		e *Explorer[T]
+		j trieJob
 	}
-	ch := make(chan job)
+	var items []item
+	for _, e := range es {
+		for _, j := range e.jobs() {
+			items = append(items, item{e, j})
+		}
+	}
+	ch := make(chan item, 64)
 	var wg sync.WaitGroup
-	for i := 0; i < nw; i++ {
+	for i := 0; i < r.Workers; i++ {
 		wg.Add(1)
 		go func() {
 			defer wg.Done()
-			w := &worker[T]{e: e, st: newStats(), scratch: new(T)}
-			w.buf = make([]byte, 0, e.Cfg.Offs+4096)
-			w.buf = append(w.buf, junkBytes(e.Cfg.Junk, e.Cfg.Offs)...)
-			for j := range ch {
-				if e.Run.expired() {
-					w.st.Exhaustive = false
+			st := newStats()
+			for it := range ch {
+				if r.expired() {
+					st.Exhaustive = false
 					continue
 				}
-				w.runJob(j.path, j.own)
+				it.e.runOne(it.j, st)
 			}
-			e.Run.St.merge(w.st)
+			r.St.merge(st)
 		}()
 	}
-	for _, j := range jobs {
-		ch <- j
+	for _, it := range items {
+		ch <- it
 	}
 	close(ch)
 	wg.Wait()
-	if e.Run.expired() {
-		e.Run.St.mu.Lock()
-		e.Run.St.Exhaustive = false
-		e.Run.St.CapsHit = append(e.Run.St.CapsHit, "deadline:"+e.Drv.Name)
-		e.Run.St.mu.Unlock()
+	if r.expired() {
+		r.St.mu.Lock()
+		r.St.Exhaustive = false
+		r.St.CapsHit = append(r.St.CapsHit, "deadline")
+		r.St.mu.Unlock()
 	}
 }
+
+func (e *Explorer[T]) run() { exploreMany(e.Run, []*Explorer[T]{e}) }
 
 func (w *worker[T]) runJob(path []Frag, own int) {
 	base := w.e.Cfg.Offs
@@ -622,11 +669,10 @@ func (w *worker[T]) visit(depth int) bool {
 	base := cfg.Offs
 	buf := w.buf
 	blen := len(buf)
-	nd := &nodeRec[T]{}
-	nd.fresh = d.New(cfg)
+	nd := w.getNode(len(w.stack))
 	var pmsg string
 	nd.fn, nd.fe, pmsg = d.safeStep(nd.fresh, buf, base, cfg)
-	nd.fkey = d.key(nd.fresh, buf, nil)
+	nd.fkey = d.key(nd.fresh, buf, nd.fkey[:0])
 	cnt := w.count
 	if cnt {
 		w.st.States++
@@ -648,6 +694,9 @@ func (w *worker[T]) visit(depth int) bool {
 		}
 	} else if !suspended(nd.fe) {
 		nd.defDepth = 0
+	}
+	if e.Or.Extension && cnt && len(e.Probes) > 0 && !suspended(nd.fe) && nd.fe != errPanic {
+		w.runProbes(nd, blen)
 	}
 	// ---- C01/C02: transitions from every suspended ancestor state
 	if e.Or.Schedule || e.Or.Sanity {
@@ -703,8 +752,9 @@ func (w *worker[T]) visit(depth int) bool {
 				}
 				// definitive with a different full state: compare what the caller can read
 				if e.Or.Schedule && cnt && n2 == nd.fn && e2 == nd.fe {
-					if nd.fokey == nil {
-						nd.fokey = d.obsKey(nd.fresh, buf, nil)
+					if !nd.hasFokey {
+						nd.fokey = d.obsKey(nd.fresh, buf, nd.fokey[:0])
+						nd.hasFokey = true
 					}
 					w.okbuf = d.obsKey(w.scratch, buf, w.okbuf[:0])
 					if cnt {
@@ -801,40 +851,90 @@ func (w *worker[T]) vioFinal(rule, class, detail string, cuts []int, fc *Cfg, mi
 }
 
 func (w *worker[T]) checkExtension(parent, nd *nodeRec[T], blen int) {
+	w.cmpExt(parent.fresh, parent.fn, parent.fe, parent.fkey, nd.fresh, nd.fn, nd.fe, nd.fkey, w.buf, blen-1, blen)
+}
+
+// cmpExt: the definitive result (po,pn,pe) obtained on buf[:plen] must be unchanged on buf[:clen].
+func (w *worker[T]) cmpExt(po *T, pn int, pe sipsp.ErrorHdr, pkey []byte, co *T, cn int, ce sipsp.ErrorHdr, ckey []byte, buf []byte, plen, clen int) {
 	e := w.e
 	d := e.Drv
 	cfg := &e.Cfg
 	base := cfg.Offs
-	buf := w.buf
 	exempt := false
-	var pobs, nobs string
 	if e.Or.ExemptCase != nil {
-		pobs = d.obs(parent.fresh, buf)
-		exempt = e.Or.ExemptCase(pobs, cfg.Flags) && successLike(parent.fe)
+		exempt = successLike(pe) && e.Or.ExemptCase(po, cfg.Flags)
 	}
-	if parent.fe != nd.fe || (!exempt && parent.fn != nd.fn) {
-		c := mkCase("extension", d.Name, cfg, buf[base:], []int{blen - 1 - base, blen - base})
-		e.Run.Col.add(&Violation{Property: e.Prop, Site: d.Name, Rule: "verdict-stable-under-extension", Class: errName(parent.fe) + "->" + errName(nd.fe),
-			Detail: fmt.Sprintf("on %d bytes %s, on %d bytes %s", blen-1-base, verdictStr(parent.fn-base, parent.fe), blen-base, verdictStr(nd.fn-base, nd.fe)), Case: c})
+	if pe != ce || (!exempt && pn != cn) {
+		c := mkCase("extension", d.Name, cfg, buf[base:clen], []int{plen - base, clen - base})
+		e.Run.Col.add(&Violation{Property: e.Prop, Site: d.Name, Rule: "verdict-stable-under-extension", Class: errName(pe) + "->" + errName(ce),
+			Detail: fmt.Sprintf("on %d bytes %s, on %d bytes %s", plen-base, verdictStr(pn-base, pe), clen-base, verdictStr(cn-base, ce)), Case: c})
 		return
 	}
-	if !successLike(nd.fe) {
+	if !successLike(ce) {
 		return
 	}
-	if bytes.Equal(parent.fkey, nd.fkey) {
+	if bytes.Equal(pkey, ckey) {
 		return
 	}
-	if pobs == "" {
-		pobs = d.obs(parent.fresh, buf)
+	if !exempt {
+		w.okbuf = d.obsKey(po, buf, w.okbuf[:0])
+		w.okbuf2 = d.obsKey(co, buf, w.okbuf2[:0])
+		if bytes.Equal(w.okbuf, w.okbuf2) {
+			return
+		}
 	}
-	nobs = d.obs(nd.fresh, buf)
+	pobs := d.obs(po, buf)
+	nobs := d.obs(co, buf)
 	if exempt {
 		pobs, nobs = exemptFilter(pobs, e.Or.ExemptObs), exemptFilter(nobs, e.Or.ExemptObs)
 	}
 	if pobs != nobs {
-		c := mkCase("extension", d.Name, cfg, buf[base:], []int{blen - 1 - base, blen - base})
+		c := mkCase("extension", d.Name, cfg, buf[base:clen], []int{plen - base, clen - base})
 		e.Run.Col.add(&Violation{Property: e.Prop, Site: d.Name, Rule: "values-stable-under-extension", Class: diffField(pobs, nobs),
 			Detail: firstDiff(pobs, nobs), Case: c})
+	}
+}
+
+// probes: adversarial continuations appended below a node with a definitive verdict (C03).
+func (w *worker[T]) runProbes(nd *nodeRec[T], blen int) {
+	e := w.e
+	d := e.Drv
+	cfg := &e.Cfg
+	if w.ptmp == nil {
+		w.ptmp = new(T)
+	}
+	hasBytes := false
+	for i := range d.plan.slices {
+		if d.plan.slices[i].isBytes {
+			hasBytes = true
+		}
+	}
+	if w.tmpl == nil {
+		w.tmpl = d.New(cfg)
+	}
+	for _, p := range e.Probes {
+		w.pbuf = append(append(w.pbuf[:0], w.buf[:blen]...), p...)
+		ext := w.pbuf
+		d.copyInto(w.ptmp, w.tmpl, &w.pstore)
+		n2, e2, _ := d.safeStep(w.ptmp, ext, cfg.Offs, cfg)
+		w.st.Transitions++
+		w.kbuf2 = d.key(w.ptmp, ext, w.kbuf2[:0])
+		if !hasBytes {
+			// no []byte views in the object: the node's own one-shot result is position-comparable
+			w.cmpExt(nd.fresh, nd.fn, nd.fe, nd.fkey, w.ptmp, n2, e2, w.kbuf2, ext, blen, len(ext))
+			continue
+		}
+		// re-run the short parse on the same backing array so []byte positions compare
+		if w.ptmp2 == nil {
+			w.ptmp2 = new(T)
+		}
+		d.copyInto(w.ptmp2, w.tmpl, &w.pstore2)
+		n1, e1, _ := d.safeStep(w.ptmp2, ext[:blen], cfg.Offs, cfg)
+		if suspended(e1) || e1 == errPanic {
+			continue
+		}
+		w.kbuf = d.key(w.ptmp2, ext, w.kbuf[:0])
+		w.cmpExt(w.ptmp2, n1, e1, w.kbuf, w.ptmp, n2, e2, w.kbuf2, ext, blen, len(ext))
 	}
 }
 
@@ -925,7 +1025,7 @@ func replayExtension[T any](prop string, d *Driver[T], c *Case, or Oracles) []*V
 		return nil
 	}
 	pobs := d.obs(po, buf)
-	exempt := or.ExemptCase != nil && or.ExemptCase(pobs, cfg.Flags) && successLike(pe)
+	exempt := or.ExemptCase != nil && successLike(pe) && or.ExemptCase(po, cfg.Flags)
 	if pe != we || (!exempt && pn != wn) {
 		out = append(out, &Violation{Property: prop, Site: d.Name, Rule: "verdict-stable-under-extension", Class: errName(pe) + "->" + errName(we),
 			Detail: fmt.Sprintf("%s vs %s", verdictStr(pn-base, pe), verdictStr(wn-base, we)), Case: c})
